@@ -2588,7 +2588,7 @@ class HasCTE(roles.HasCTERole, SelectsRows):
     """Mixin that declares a class to include CTE support."""
 
     _has_ctes_traverse_internals: _TraverseInternalsType = [
-        ("_independent_ctes", InternalTraversal.dp_clauseelement_list),
+        ("_independent_ctes", InternalTraversal.dp_clauseelement_tuple),
         ("_independent_ctes_opts", InternalTraversal.dp_plain_obj),
     ]
 
@@ -4660,8 +4660,8 @@ class CompoundSelect(
             ("_offset_clause", InternalTraversal.dp_clauseelement),
             ("_fetch_clause", InternalTraversal.dp_clauseelement),
             ("_fetch_clause_options", InternalTraversal.dp_plain_dict),
-            ("_order_by_clauses", InternalTraversal.dp_clauseelement_list),
-            ("_group_by_clauses", InternalTraversal.dp_clauseelement_list),
+            ("_order_by_clauses", InternalTraversal.dp_clauseelement_tuple),
+            ("_group_by_clauses", InternalTraversal.dp_clauseelement_tuple),
             ("_for_update_arg", InternalTraversal.dp_clauseelement),
             ("keyword", InternalTraversal.dp_string),
         ]
